@@ -2,6 +2,8 @@
 // Manages sample names, contig names, and segment descriptors
 
 use crate::Archive;
+#[cfg(ragc_verif)]
+use crate::verif_zstd as zstd;
 use anyhow::{Context, Result};
 use std::collections::HashMap;
 
@@ -1206,6 +1208,39 @@ impl CollectionV3 {
         }
 
         Ok(())
+    }
+}
+
+/// Verification hooks (compiled only with `--cfg ragc_verif`): pass-through access to the private
+/// name / descriptor codecs and read-only views of the loader state. No behaviour change.
+#[cfg(ragc_verif)]
+impl CollectionV3 {
+    pub fn verif_serialize_contig_names(&self, id_from: usize, id_to: usize) -> Vec<u8> {
+        self.serialize_contig_names(id_from, id_to)
+    }
+    pub fn verif_deserialize_contig_names(&mut self, data: &[u8], i_sample: usize) -> Result<()> {
+        self.deserialize_contig_names(data, i_sample)
+    }
+    pub fn verif_serialize_contig_details(&mut self, id_from: usize, id_to: usize) -> [Vec<u8>; 5] {
+        self.serialize_contig_details(id_from, id_to)
+    }
+    pub fn verif_deserialize_contig_details(
+        &mut self,
+        v_data: &[Vec<u8>; 5],
+        i_sample: usize,
+    ) -> Result<()> {
+        self.deserialize_contig_details(v_data, i_sample)
+    }
+    /// In-group-id predictor table as left by the last (de)serialisation.
+    pub fn verif_in_group_ids(&self) -> Vec<i32> {
+        self.in_group_ids.clone()
+    }
+    /// (samples_loaded cursor, per sample: number of contigs currently loaded)
+    pub fn verif_state(&self) -> (usize, Vec<usize>) {
+        (
+            self.samples_loaded,
+            self.sample_desc.iter().map(|s| s.contigs.len()).collect(),
+        )
     }
 }
 
